@@ -489,6 +489,9 @@ class bptk():
         if not self.session_state:
             return None
 
+        if settings is None:
+            settings = {}
+
         scenario_managers = self.session_state["scenario_managers"]
         agents = self.session_state["agents"]
         scenarios = self.session_state["scenarios"]
